@@ -54,6 +54,7 @@ func TestVF_C08_SnapshotSuffix(t *testing.T) {
 
 func checkC08(t *rapid.T, tr *twinRun) {
 	c, a, inc := tr.c, tr.a, tr.cInc
+	_ = c
 	if tr.ssIndex > 0 {
 		if tr.ssIndex != tr.k {
 			vfhelp.Fail(t, "c08-snapshot-index", "snapshot requested with %d applied captured index %d", tr.k, tr.ssIndex)
@@ -84,49 +85,11 @@ func checkC08(t *rapid.T, tr *twinRun) {
 			vfhelp.Fail(t, "c08-state-differs-after-suffix", "%s/%s snapshot %d: at %d C %v, A %v", tr.kind, tr.variant, tr.ssIndex, p, tr.viewC[p], tr.viewA[p])
 		}
 	}
-	// the observable result stream
-	for idx := uint64(1); idx <= tr.n; idx++ {
-		ao, co := a.cur.node.byIndex[idx], inc.node.byIndex[idx]
-		processed := idx > inc.startAt && (idx > tr.ssIndex || idx <= tr.lagAt)
-		if tr.variant == "restart" {
-			processed = idx > inc.startAt
+	// the observable result stream and the deliveries, per incarnation
+	for _, r := range tr.replicas() {
+		for _, i := range r.incs() {
+			tr.checkIncarnation(t, r, i, "c08")
 		}
-		if !processed {
-			if len(co) > 0 {
-				vfhelp.Fail(t, "c08-outcome-for-skipped-entry", "C reported %v for index %d (snapshot %d, lagging at %d)", co, idx, tr.ssIndex, tr.lagAt)
-			}
-			continue
-		}
-		if tr.openIdx >= idx && tr.meta[idx-1].Kind == ekNoopSession {
-			// already inside the on-disk SM: applied as a no-op, nobody is notified
-			if len(co) > 0 {
-				vfhelp.Fail(t, "c08-ondisk-outcome-below-open", "index %d <= Open index %d reported %v", idx, tr.openIdx, co)
-			}
-			continue
-		}
-		if len(ao) != len(co) || (len(ao) == 1 && !sameOutcome(ao[0], co[0])) {
-			vfhelp.Fail(t, "c08-outcome-differs", "%s/%s snapshot %d: index %d %v: A %v, C %v", tr.kind, tr.variant, tr.ssIndex, idx, tr.meta[idx-1], ao, co)
-		}
-	}
-	// deliveries to C's user SM
-	var wantU []upd
-	switch {
-	case tr.variant == "restart":
-		base := inc.startAt
-		if tr.openIdx > base {
-			base = tr.openIdx
-		}
-		wantU = tr.model.expectedUpdates(base, tr.n)
-	case tr.ssIndex > 0:
-		wantU = append(tr.model.expectedUpdates(0, tr.lagAt), tr.model.expectedUpdates(tr.ssIndex, tr.n)...)
-	default:
-		wantU = tr.model.expectedUpdates(0, tr.n)
-	}
-	if sig, msg := checkDeliveries(inc.usm.pr().updates, wantU); sig != "" {
-		vfhelp.Fail(t, "c08-C-"+sig, "%s/%s snapshot %d open %d lag %d: %s", tr.kind, tr.variant, tr.ssIndex, tr.openIdx, tr.lagAt, msg)
-	}
-	if sig, msg := checkDeliveries(a.cur.usm.pr().updates, tr.model.expectedUpdates(0, tr.n)); sig != "" {
-		vfhelp.Fail(t, "c08-A-"+sig, "%s", msg)
 	}
 	rec := inc.usm.pr().recovered
 	dummy := tr.kind == kOnDisk && tr.variant == "restart"
